@@ -119,20 +119,20 @@ Section MovedSkel.
 
   Lemma walk_moved_skel : forall idxs w w',
     get_table w t = Some tb -> walk fn rtl R w t p KMoved [Z.of_nat dst] idxs = (w', None) ->
-    SKB w w' /\ w_tables w' = w_tables w /\ w_props w' = w_props w.
+    SKB w w' /\ w_tables w' = w_tables w /\ w_props w' = w_props w /\ w_evps w' = w_evps w.
   Proof.
     induction idxs as [|x r IH]; intros w w' Ht H; cbn [walk] in H.
     - inversion H; subst. split; [apply SKB_refl|auto].
     - rewrite Ht in H. destruct (nth_error (t_slots tb) x) as [[[ser s]|]|] eqn:Hx; try exact (IH w w' Ht H).
       destruct s as [label act|b l].
       + rewrite (Hna _ _ _ _ Hx) in H. rewrite (deliver_moved_obs fn rtl R w p dst label) in H.
-        destruct (IH (log (EvNotify label KMoved [Z.of_nat dst] (values w p)) w) w' Ht H) as (A1 & A2 & A3). split; [|auto]. eapply SKB_trans; [|exact A1]. apply SKB_binds. reflexivity.
+        destruct (IH (log (EvNotify label KMoved [Z.of_nat dst] (values w p)) w) w' Ht H) as (A1 & A2 & A3 & A4). split; [|auto]. eapply SKB_trans; [|exact A1]. apply SKB_binds. reflexivity.
       + destruct (get_bind w b) as [xb|] eqn:Hgb.
         * rewrite (deliver_moved_node fn rtl R w p dst b l xb Hgb) in H.
           destruct (get_bind_lt _ _ _ Hgb) as [Hlt Hal].
           set (w1 := put_bind w b (bind_with_root xb (retarget (b_root xb) l (f_moved dst)))) in *.
           assert (Ht1 : get_table w1 t = Some tb) by exact Ht.
-          destruct (IH w1 w' Ht1 H) as (A1 & A2 & A3). split; [|split; [rewrite A2; reflexivity|rewrite A3; reflexivity]].
+          destruct (IH w1 w' Ht1 H) as (A1 & A2 & A3 & A4). split; [|split; [rewrite A2; reflexivity|split; [rewrite A3; reflexivity|rewrite A4; reflexivity]]].
           eapply SKB_trans; [|exact A1]. intros b'. unfold w1. rewrite get_bind_put_bind by exact Hlt. cbn [bind_with_root b_alive]. rewrite Hal.
           destruct (Nat.eqb_spec b b') as [<-|Hne].
           -- rewrite Hgb. split; [cbn [b_root]; apply skel_retarget|reflexivity].
@@ -143,9 +143,9 @@ End MovedSkel.
 
 Lemma emit_moved_skel fn rtl R w ot p dst w' :
   (forall t pos ser label act, ot = Some t -> slot_at w t pos ser (SObs label act) -> act = None) ->
-  emit fn rtl R w ot p KMoved [Z.of_nat dst] = (w', None) -> SKB w w' /\ w_props w' = w_props w /\ forall t, tview w' t = tview w t.
+  emit fn rtl R w ot p KMoved [Z.of_nat dst] = (w', None) -> SKB w w' /\ w_props w' = w_props w /\ (forall t, tview w' t = tview w t) /\ w_evps w' = w_evps w.
 Proof.
-  intros Hna H. destruct ot as [t|]; [|inversion H; subst; split; [apply SKB_refl|split; reflexivity]].
+  intros Hna H. destruct ot as [t|]; [|inversion H; subst; split; [apply SKB_refl|split; [reflexivity|split; reflexivity]]].
   unfold emit in H. destruct (get_table w t) as [tb|] eqn:Ht; [|discriminate H]. destruct (t_emitting tb); [discriminate H|].
   set (tb1 := {| t_slots := t_slots tb; t_free := t_free tb; t_emitting := true; t_alive := t_alive tb |}) in *.
   set (w1 := put_table w t tb1) in *.
@@ -153,11 +153,11 @@ Proof.
   assert (Ht1 : get_table w1 t = Some tb1) by (unfold get_table, w1, put_table; cbn [set_tables w_tables]; apply nth_upd_same; exact Hlt).
   destruct (walk fn rtl R w1 t p KMoved [Z.of_nat dst] (seq 0 (length (t_slots tb)))) as [w2 e] eqn:Hw.
   assert (e = None) by (destruct (get_table w2 t); inversion H; reflexivity). subst e.
-  destruct (walk_moved_skel fn rtl R p dst t tb1) with (idxs := seq 0 (length (t_slots tb))) (w := w1) (w' := w2) as (A1 & A2 & A3); [|exact Ht1|exact Hw|].
+  destruct (walk_moved_skel fn rtl R p dst t tb1) with (idxs := seq 0 (length (t_slots tb))) (w := w1) (w' := w2) as (A1 & A2 & A3 & A4); [|exact Ht1|exact Hw|].
   { intros x ser label act Hn. apply (Hna t x ser label act eq_refl). exists (t_slots tb), (t_free tb), (t_alive tb). split; [unfold tview; rewrite Ht; reflexivity|exact Hn]. }
   assert (S1 : SKB w w1) by (apply SKB_binds; reflexivity).
   assert (Ht2 : get_table w2 t = Some tb1) by (unfold get_table; rewrite A2; exact Ht1).
-  rewrite Ht2 in H. inversion H; subst w'. split; [|split; [exact A3|]].
+  rewrite Ht2 in H. inversion H; subst w'. split; [|split; [exact A3|split; [|exact A4]]].
   - eapply SKB_trans; [exact S1|]. eapply SKB_trans; [exact A1|]. apply SKB_binds. reflexivity.
   - intros t'. rewrite tview_put_table. assert (Hl2 : length (w_tables w2) = length (w_tables w)) by (rewrite A2; unfold w1, put_table; cbn [set_tables w_tables]; apply upd_length).
     rewrite Hl2. apply Nat.ltb_lt in Hlt. rewrite Hlt. cbn [tb1 t_slots t_free t_alive]. destruct (Nat.eqb_spec t t') as [<-|Hne].
@@ -245,7 +245,11 @@ Section MoveCtor.
                  | _, _ => False end) /\
       (* the three public signals - with every observer and every reader subscribed to them - now belong to the destination *)
       (pr_about dn = pr_about s0 /\ pr_changed dn = pr_changed s0 /\ pr_destroyed dn = pr_destroyed s0 /\
-       pr_about sn = None /\ pr_changed sn = None /\ pr_destroyed sn = None).
+       pr_about sn = None /\ pr_changed sn = None /\ pr_destroyed sn = None) /\
+      (* every binding reads and updates what it did, with src renamed to dst; the evaluators' registries are untouched *)
+      (forall b x x', get_bind w b = Some x -> get_bind w' b = Some x' ->
+         b_target x' = option_map (rn src dst) (b_target x) /\ leaves (b_root x') = map (mvl src dst) (leaves (b_root x))) /\
+      w_evps w' = w_evps w /\ length (w_binds w') = length (w_binds w).
   Proof.
     intros Hinv Hna HNE H. cbn [step1] in H.
     destruct (lookup (w_props w) src) as [s0|] eqn:Hs; [|discriminate H].
@@ -278,10 +282,11 @@ Section MoveCtor.
     (* the emissions keep skeletons and evaluators *)
     assert (Ewb : wb = wa) by (cbn [emit] in E1; inversion E1; reflexivity). subst wb.
     assert (Tw : forall t, tview wc t = tview w t) by (intros t; rewrite T; unfold wa, fixtarget; destruct (pr_updater d) as [bu|]; [destruct (get_bind w1 bu)|]; reflexivity).
-    assert (SKc : SKB wa wc).
-    { refine (proj1 (emit_moved_skel fn rtl (set_helper fn rtl fuel) wa (pr_moved s0) dst dst wc _ E2)).
+    assert (SKc' : SKB wa wc /\ w_evps wc = w_evps wa).
+    { destruct (emit_moved_skel fn rtl (set_helper fn rtl fuel) wa (pr_moved s0) dst dst wc) as (A1 & _ & _ & A4); [|exact E2|auto].
       intros t pos ser label act _ Hsl. apply (Hna t pos ser label act). destruct Hsl as (sl & fr & al & Et & En). exists sl, fr, al. split; [|exact En].
       rewrite <- Et. unfold wa, fixtarget. destruct (pr_updater d) as [bu|]; [destruct (get_bind w1 bu)|]; reflexivity. }
+    destruct SKc' as [SKc Evc].
     (* every binding: alive as before, same evaluator, and its tree abstracts to the old abstraction with src renamed to dst *)
     assert (G1 : forall b, get_bind w1 b = get_bind w b) by reflexivity.
     assert (HB : forall b, match get_bind w b, get_bind w' b with
@@ -305,8 +310,25 @@ Section MoveCtor.
     { intros q. unfold w', w1; cbn [set_props w_props]. rewrite !lookup_bind. destruct (Nat.eqb q dst); [reflexivity|]. destruct (Nat.eqb q src); reflexivity. }
     assert (Sw : forall t pos ser s1, slot_at w' t pos ser s1 <-> slot_at w t pos ser s1).
     { intros t pos ser s1. unfold slot_at. change (tview w' t) with (tview wc t). rewrite Tw. tauto. }
+    assert (HT : forall b x x', get_bind w b = Some x -> get_bind w' b = Some x' ->
+                 b_target x' = option_map (rn src dst) (b_target x) /\ leaves (b_root x') = map (mvl src dst) (leaves (b_root x))).
+    { intros b x x' Hx Hx'. change (get_bind wc b = Some x') in Hx'. pose proof (B b) as Bb. unfold bmap, bview in Bb. unfold wa in Bb.
+      rewrite (fixtarget_get w1 d dst b), G1, Hx, Hx' in Bb. change (pr_updater d) with (pr_updater s0) in Bb.
+      destruct (opt_eqb Nat.eqb (pr_updater s0) (Some b)) eqn:Eu; inversion Bb as [[El Etg]]; (split; [|reflexivity]).
+      - cbn [bind_with_target b_target]. assert (Hub : pr_updater s0 = Some b).
+        { destruct (pr_updater s0) as [bu|]; cbn [opt_eqb] in Eu; [apply Nat.eqb_eq in Eu; congruence|discriminate Eu]. }
+        destruct (pi_upd _ _ _ _ _ _ _ Hinv _ _ _ Ps Hub (fun z => z)) as (ls & Ebw). unfold bview in Ebw. rewrite Hx in Ebw.
+        assert (Et0 : b_target x = Some src) by congruence. rewrite Etg, Et0. cbn [option_map]. unfold rn. rewrite Nat.eqb_refl. reflexivity.
+      - rewrite Etg. destruct (b_target x) as [q|] eqn:Et0; [|reflexivity]. cbn [option_map]. unfold rn. destruct (Nat.eqb_spec q src) as [->|]; [|reflexivity]. exfalso.
+        assert (Bv : bview w b = Some (leaves (b_root x), Some src)) by (unfold bview; rewrite Hx, Et0; reflexivity).
+        destruct (pi_tgt _ _ _ _ _ _ _ Hinv _ _ _ Bv) as (vq & Evq & Euq). rewrite Ps in Evq. inversion Evq; subst vq. cbn in Euq.
+        rewrite Euq in Eu. cbn [opt_eqb] in Eu. rewrite Nat.eqb_refl in Eu. discriminate Eu. }
+    assert (EV : w_evps w' = w_evps w).
+    { change (w_evps w') with (w_evps wc). rewrite Evc. unfold wa, fixtarget. destruct (pr_updater d) as [bu|]; [destruct (get_bind w1 bu)|]; reflexivity. }
     exists s0, dn, sn. split; [reflexivity|]. split; [reflexivity|]. split; [exact Hne|]. split; [reflexivity|]. split; [reflexivity|]. split; [reflexivity|]. split; [reflexivity|].
-    split; [exact PW|]. split; [exact Sw|]. split; [exact HB|]. repeat split.
+    split; [exact PW|]. split; [exact Sw|]. split; [exact HB|]. split; [repeat split|]. split; [exact HT|]. split; [exact EV|].
+    change (w_binds w') with (w_binds wc). rewrite L. unfold wa, fixtarget. destruct (pr_updater d) as [bu|]; [|reflexivity].
+    destruct (get_bind w1 bu); [|reflexivity]. unfold put_bind; cbn [set_binds w_binds]. apply upd_length.
   Qed.
 
   (* the abstract half, for any operation that leaves the world in this shape: dst now has the value and updater src had, src is
@@ -492,10 +514,10 @@ Section MoveCtor.
     assert (Twa : forall t, tview wa t = tview w4 t) by (intros t; unfold wa, fixtarget; destruct (pr_updater d') as [bu|]; [destruct (get_bind w5 bu)|]; reflexivity).
     assert (NAa : forall ot t pos ser label act, ot = Some t -> slot_at wa t pos ser (SObs label act) -> act = None).
     { intros ot t pos ser label act _ (sl & fr & al & Et & En). apply (Hna t pos ser label act). apply S4. exists sl, fr, al. split; [rewrite <- Twa; exact Et|exact En]. }
-    destruct (emit_moved_skel fn rtl (set_helper fn rtl fuel) wa (pr_moved d0) dst dst wb (NAa _) E1) as (SKb & Pb & Twb).
+    destruct (emit_moved_skel fn rtl (set_helper fn rtl fuel) wa (pr_moved d0) dst dst wb (NAa _) E1) as (SKb & Pb & Twb & Evb).
     assert (NAb : forall t pos ser label act, pr_moved s0 = Some t -> slot_at wb t pos ser (SObs label act) -> act = None).
     { intros t pos ser label act Ht (sl & fr & al & Et & En). apply (NAa (Some t) t pos ser label act eq_refl). exists sl, fr, al. split; [rewrite <- Twb; exact Et|exact En]. }
-    destruct (emit_moved_skel fn rtl (set_helper fn rtl fuel) wb (pr_moved s0) dst dst wc NAb E2) as (SKc & _ & _).
+    destruct (emit_moved_skel fn rtl (set_helper fn rtl fuel) wb (pr_moved s0) dst dst wc NAb E2) as (SKc & _ & _ & Evc).
     pose proof (SKB_trans _ _ _ SKb SKc) as SKac.
     set (dn := prop_set_sig d' KMoved (pr_moved (moved_from s0))) in *. set (sn := prop_set_sig (moved_from s0) KMoved None) in *.
     exists s0, d0, dn, sn. split; [reflexivity|]. split; [reflexivity|]. split; [exact Hne|]. split; [reflexivity|]. split; [reflexivity|]. split; [reflexivity|]. split; [reflexivity|].
